@@ -16,6 +16,7 @@ mod c14;
 mod c14m;
 mod c15;
 mod c16;
+mod c17;
 mod c18;
 mod tlslab;
 mod redir;
@@ -105,6 +106,7 @@ const CHECKS: &[(&str, CheckFn)] = &[
     ("C14", c14m::c14),
     ("C15", c15::c15),
     ("C16", c16::c16),
+    ("C17", c17::c17),
     ("C18", c18::c18),
     ("C19", wirechecks::c19),
 ];
@@ -127,5 +129,6 @@ const REPLAYERS: &[(&str, ReplayFn)] = &[
     ("c14", c14m::replay),
     ("c15", c15::replay),
     ("c16", c16::replay),
+    ("c17", c17::replay),
     ("c18", c18::replay),
 ];
